@@ -60,6 +60,8 @@ def coerce_int(maybe_int: _ScalarValue) -> int:
     if isinstance(maybe_int, int):
         numeric = maybe_int
     elif isinstance(maybe_int, float):
+        if not math.isfinite(maybe_int):
+            raise ValueError(INVALID_INT % maybe_int)
         numeric = int(maybe_int)
         if numeric != maybe_int:
             raise ValueError(INVALID_INT % maybe_int)
@@ -104,6 +106,10 @@ def coerce_float(maybe_float: _ScalarValue) -> float:
     except ValueError:
         raise ValueError(
             "Float cannot represent non numeric value: %s" % maybe_float
+        )
+    except OverflowError:
+        raise ValueError(
+            "Float cannot represent non finite value: %s" % maybe_float
         )
 
     if not math.isfinite(numeric):
